@@ -476,6 +476,84 @@ fn boundary_stream(ipfix: bool, i: u64) -> (Vec<Vec<u8>>, Vec<u8>) {
     (calls, protos)
 }
 
+/// one packet = a sequence of <= 4 sets over {T256 (full projected template), T257 (addresses and ports), D256, D257,
+/// OT258, OD258}: data sets before, between and behind template / options sets; `cached`: the three definitions were
+/// delivered by an earlier call
+fn interleaved_stream(ipfix: bool, i: u64) -> (Vec<Vec<u8>>, Vec<u8>) {
+    let nl = list_count(6, 4);
+    let seq = list_at(6, 4, i % nl);
+    let cached = i / nl == 1;
+    let full = subset_fields(1, 1, 127, 0);
+    let sub = subset_fields(1, 1, 3, 1);
+    let mut protos = vec![];
+    let mut body = |fields: &[FieldSpec], salt: usize, nrec: usize, protos: &mut Vec<u8>| -> Vec<u8> {
+        let mut b = vec![];
+        for r in 0..nrec {
+            for (k, f) in fields.iter().enumerate() {
+                if f.ty == 4 {
+                    let pv = [6u8, 17, 1, 47][(r + salt) % 4];
+                    protos.push(pv);
+                    b.push(pv);
+                } else {
+                    b.extend(crate::alphabet::rec_value(r + salt, k, f.len as usize));
+                }
+            }
+        }
+        b
+    };
+    // which definitions are in force when a data set is reached
+    let (mut has256, mut has257) = (cached, cached);
+    let mut v9sets = vec![];
+    let mut ipsets = vec![];
+    for (pos, k) in seq.iter().enumerate() {
+        match k {
+            0 => {
+                has256 = true;
+                v9sets.push(V9Set::Tpl(vec![V9Tpl { id: 256, fields: full.clone() }], 0));
+                ipsets.push(IpfixSet::Tpl(vec![IpfixTpl { id: 256, fields: full.clone() }], 0));
+            }
+            1 => {
+                has257 = true;
+                v9sets.push(V9Set::Tpl(vec![V9Tpl { id: 257, fields: sub.clone() }], 0));
+                ipsets.push(IpfixSet::Tpl(vec![IpfixTpl { id: 257, fields: sub.clone() }], 0));
+            }
+            2 | 3 => {
+                let (id, fields, known) = if *k == 2 { (256u16, &full, has256) } else { (257u16, &sub, has257) };
+                // data for a template the packet has not defined yet would end a V9 packet in an error: leave it out
+                if !known {
+                    continue;
+                }
+                let mut throwaway = vec![];
+                let b = body(fields, pos * 3 + 1, 2, if known { &mut protos } else { &mut throwaway });
+                v9sets.push(V9Set::Data(id, b.clone()));
+                ipsets.push(IpfixSet::Data(id, b));
+            }
+            4 => {
+                v9sets.push(V9Set::OptTpl(vec![V9OptTpl { id: 258, scope: vec![fs(1, 4)], opts: vec![fs(34, 4)] }], 0));
+                ipsets.push(IpfixSet::OptTpl(vec![IpfixOptTpl { id: 258, scope_count: 1, fields: vec![fs(149, 4), fs(41, 4)] }], 0));
+            }
+            _ => {
+                if !cached && !seq[..pos].contains(&4) {
+                    continue;
+                }
+                let b: Vec<u8> = (0..8).map(|j| fill(pos + 60, j)).collect();
+                v9sets.push(V9Set::Data(258, b.clone()));
+                ipsets.push(IpfixSet::Data(258, b));
+            }
+        }
+    }
+    let mut calls = vec![];
+    if cached {
+        if ipfix {
+            calls.push(ipfix_message(&IpfixMsg::new(vec![IpfixSet::Tpl(vec![IpfixTpl { id: 256, fields: full.clone() }], 0), IpfixSet::Tpl(vec![IpfixTpl { id: 257, fields: sub.clone() }], 0), IpfixSet::OptTpl(vec![IpfixOptTpl { id: 258, scope_count: 1, fields: vec![fs(149, 4), fs(41, 4)] }], 0)])));
+        } else {
+            calls.push(v9_packet(&V9Pkt::new(vec![V9Set::Tpl(vec![V9Tpl { id: 256, fields: full.clone() }, V9Tpl { id: 257, fields: sub.clone() }], 0), V9Set::OptTpl(vec![V9OptTpl { id: 258, scope: vec![fs(1, 4)], opts: vec![fs(34, 4)] }], 0)])));
+        }
+    }
+    calls.push(if ipfix { ipfix_message(&IpfixMsg::new(ipsets)) } else { v9_packet(&V9Pkt::new(v9sets)) });
+    (calls, protos)
+}
+
 /// value menu of projected field `which` (class menu of alphabet.rs: thresholds, special addresses, all 256 protocols)
 fn menu_values(ipfix: bool, which: usize) -> Vec<Vec<u8>> {
     let f = fs(SPECS[which].0, SPECS[which].1);
@@ -577,6 +655,19 @@ pub fn spaces(tier: &str) -> Vec<Box<dyn Space>> {
             move |i| super::stream::desc_calls(&boundary_stream(ipfix, i).0),
         ));
     }
+    // data sets before, between and behind template / options-template / options-data sets of the same packet
+    for ipfix in [false, true] {
+        let n = list_count(6, 4) * 2;
+        v.push(space(
+            &format!("{}-interleaved-set-sequences<=4-over-6-set-menu x templates in the packet / cached", if ipfix { "ipfix" } else { "v9" }),
+            n,
+            move |i| {
+                let (calls, protos) = interleaved_stream(ipfix, i);
+                judge_stream(&calls, &protos)
+            },
+            move |i| super::stream::desc_calls(&interleaved_stream(ipfix, i).0),
+        ));
+    }
     // every value of the class menus (range thresholds, special-purpose addresses, all 256 protocol numbers) in every
     // projected field, in three template shapes
     for ipfix in [false, true] {
@@ -616,7 +707,7 @@ pub fn run(tier: &str) -> i32 {
         prop: "C13".into(),
         tier: tier.into(),
         level: "model_checking",
-        rule: "V5/V7: walking byte over a 3-record packet and every materialised record count; V9 and IPFIX: templates made of EVERY subset of the projected fields (source/destination address each in {absent, IPv4, IPv6, both}, ports, protocol, first, last, two MACs = 2048 subsets) in three orders with two unrelated fields, 1..=3 records, 1..=2 data sets; every value of the class value menus (range thresholds, special-purpose addresses, all 256 protocol numbers) in every projected field in three template shapes; flattening helper over all chains of <=3 (thorough 5) packets of a 18-packet menu x 4 prior cache states. Oracle: projection computed from the reference decode (one flow per record, in order, member = decoded field, None iff the template lacks it). Distinct by the hash of the returned flows".into(),
+        rule: "V5/V7: walking byte over a 3-record packet and every materialised record count; V9 and IPFIX: templates made of EVERY subset of the projected fields (source/destination address each in {absent, IPv4, IPv6, both}, ports, protocol, first, last, two MACs = 2048 subsets) in three orders with two unrelated fields, 1..=3 records, 1..=2 data sets; every sequence of <= 4 sets over {two templates, data for each, options template, options data} in one packet (data sets before, between and behind the others; definitions in the packet or cached); every value of the class value menus (range thresholds, special-purpose addresses, all 256 protocol numbers) in every projected field in three template shapes; flattening helper over all chains of <=3 (thorough 5) packets of a 18-packet menu x 4 prior cache states. Oracle: projection computed from the reference decode (one flow per record, in order, member = decoded field, None iff the template lacks it). Distinct by the hash of the returned flows".into(),
         bounds: json!({"subsets": 2048, "orders": 3, "records": "1..=3", "data_sets": "1..=2"}),
         assumptions: vec!["when a record carries both an IPv4 and an IPv6 address of the same direction the IPv4 one is projected".into(), "V5/V7 protocol name = the name the decoded record carries (its correctness is C03's subject)".into()],
         trusted_base: vec!["refmodel.rs".into(), "c13::project".into()],
